@@ -34,7 +34,9 @@ class ProbeRec:
         self.got_op = []  # op index of each
         self.overrides = []
         self.stages = []
+        self.expect_exit_error = False
         self.enter_error = None
+        self.exp_all = []  # expected events (model) since creation: (opi, ev)
 
 
 def canon_event(data):
@@ -179,7 +181,46 @@ class Engine:
             res = ["exit-error", canon(e)]
         rec.active = False
         self.order.remove(rec.id)
+        self.on_deactivated(rec, res)
+        if isinstance(res, list) and rec.expect_exit_error:
+            return "ok-expected-error"
         return res
+
+    def on_deactivated(self, rec, res):
+        """C17: completion exactly once, reductions publish exactly one value
+        computed from precisely the delivered events."""
+        rec.expect_exit_error = False
+        for st in rec.stages:
+            if st.get("raised"):
+                continue  # after an injected subscriber failure this stage is unspecified
+            vals = [d[st["cap"]] for _, d in rec.exp_all[st["since"]:] if st["cap"] in d]
+            k = st["kind"]
+            want_next, want_err = None, False
+            if k == "accum":
+                want_next = vals
+            elif k == "map":
+                want_next = [v + 1 for v in vals]
+            elif k == "count":
+                want_next = [len(vals)]
+            elif k == "sum":
+                want_next = [sum(vals)] if vals else None
+                want_err = not vals
+            elif k in ("min", "max", "first", "last"):
+                if vals:
+                    want_next = [{"min": min, "max": max, "first": lambda v: v[0], "last": lambda v: v[-1]}[k](vals)]
+                else:
+                    want_err = True
+            if want_err:
+                rec.expect_exit_error = True
+                self.sim.reach("completion_raises")
+                # an empty non-neutral reduction: error instead of a value; no value published
+                if st["next"]:
+                    self.violate("C17.reduction", {"probe": rec.id, "stage": k, "empty stream but published": st["next"]})
+                continue
+            if st["next"] != want_next:
+                self.violate("C17.reduction", {"probe": rec.id, "stage": k, "cap": st["cap"], "expected": want_next, "got": st["next"]})
+            if not st.get("bare") and (st["completed"] != 1 or st["errors"]):
+                self.violate("C17.completed_once", {"probe": rec.id, "stage": k, "completed": st["completed"], "errors": st["errors"]})
 
     def op_tool(self, op):
         import ptera
@@ -324,7 +365,110 @@ class Engine:
         if kind == "clock":
             SEAMS["clock"].mode = op["mode"]
             return "ok"
+        if kind == "stage":
+            return self.op_stage(op)
+        if kind == "reenter":
+            return self.op_reenter(op)
+        if kind == "exit_hook":
+            return self.op_exit_hook(op)
         return None
+
+    # -- pipeline stages (C17) ---------------------------------------------------
+    def op_stage(self, op):
+        rec = self.probes.get(op["id"])
+        if rec is None or rec.dead or rec.obj is None:
+            return "noop"
+        if rec.entered and not rec.active:
+            return "noop"  # attaching to a finished probe is outside the statement
+        st = {
+            "kind": op["kind"], "cap": op["cap"], "next": [], "completed": 0,
+            "errors": [], "since": len(rec.exp_all), "raises": op.get("raises"),
+            "n_seen": 0,
+        }
+
+        def on_next(v, st=st):
+            st["n_seen"] += 1
+            if st["raises"] is not None and st["n_seen"] == st["raises"]:
+                st["raised"] = True
+                self.sim.reach("handler_raises")
+                raise RuntimeError("subscriber failure injected")
+            st["next"].append(canon(v))
+
+        def on_error(e, st=st):
+            st["errors"].append(canon(e))
+
+        def on_completed(st=st):
+            st["completed"] += 1
+
+        src = rec.obj["?" + op["cap"]]  # non-strict: other selectors' events lack the key
+        k = op["kind"]
+        try:
+            if k in ("min", "max", "count", "sum", "last", "first"):
+                src = getattr(src, k)()
+            elif k == "map":
+                src = src.map(lambda v: v + 1)
+            elif k == "accum":
+                pass
+            else:
+                raise HarnessError(k)
+            if op.get("bare"):
+                # the everyday form: probe["x"].min().subscribe(fn) -- no error handler
+                st["bare"] = True
+                src.subscribe(on_next)
+            else:
+                src.subscribe(on_next=on_next, on_error=on_error, on_completed=on_completed)
+        except Exception as e:
+            return ["stage-error", canon(e)]
+        rec.stages.append(st)
+        return "ok"
+
+    def op_reenter(self, op):
+        rec = self.probes.get(op["id"])
+        if rec is None or rec.dead or rec.obj is None or not rec.entered:
+            return "noop"
+        before = self.lifecycle_snapshot()
+        try:
+            rec.obj.__enter__()
+            self.violate("C17.single_activation", {"probe": rec.id, "second activation": "accepted"})
+            # the model cannot follow an accepted second activation
+            rec.dead = True
+            return "accepted"
+        except Exception as e:
+            after = self.lifecycle_snapshot()
+            if before != after:
+                self.violate("C17.single_activation", {"probe": rec.id, "refused but state changed": [before, after]})
+            self.sim.reach("reenter_refused")
+            return ["refused", canon(e)]
+
+    def op_exit_hook(self, op):
+        import ptera.probe as pp
+
+        self.sim.reach("exit_hook")
+        order = [p for p in pp.global_probes]
+        try:
+            pp._terminate_global_probes()
+            res = "ok"
+        except BaseException as e:
+            res = ["exit-error", canon(e)]
+        # model: every active probe is deactivated (in the order the hook saw them)
+        for obj in order:
+            for rec in self.probes.values():
+                if rec.obj is obj and rec.active:
+                    rec.active = False
+                    self.order.remove(rec.id)
+                    self.on_deactivated(rec, None)
+        return res
+
+    def lifecycle_snapshot(self):
+        cs = self.sim.code_state()
+        return [
+            {q: [d["original"], d["count"], d["caps"]] for q, d in cs.items()},
+            len(self.handlers_ids()),
+            len(SEAMS["global_probes"]),
+        ]
+
+    def handlers_ids(self):
+        return [id(acc) for _, acc in self.sim.handlers_now()]
 
     # -- code ops + invariants -------------------------------------------------
     def op_code(self, op):
@@ -356,6 +500,7 @@ class Engine:
                 got = ob["got"].get(pid, [])
                 if rec.active and not rec.spec.get("nojudge"):
                     exp = self.expected_for(rec, ob["lo"], ob["hi"])
+                    rec.exp_all.extend((self.opi, d) for _, d in exp)
                     self.compare_stream(self.stream_inv(rec), rec, exp, got)
                 elif got and not rec.active:
                     self.violate(
@@ -405,7 +550,55 @@ class Engine:
             self.violate("C05.exit_clean", {"op": op, "error": res})
 
     def after_op(self, op, res):
-        pass
+        if self.sc.get("lifecycle", True):
+            self.check_lifecycle(op)
+
+    def model_counts(self):
+        want = {}
+        for pid in self.order:
+            rec = self.probes[pid]
+            if rec.obj is None:
+                continue  # overlays do not tool anything
+            for sel in rec.spec["sels"]:
+                for lv in sel["levels"]:
+                    want[lv["fn"]] = want.get(lv["fn"], 0) + 1
+                    for sb in lv.get("sibs", []):
+                        want[sb["fn"]] = want.get(sb["fn"], 0) + 1
+        return want
+
+    def check_lifecycle(self, op):
+        cs = self.sim.code_state()
+        want = self.model_counts()
+        for q, d in cs.items():
+            w = want.get(q, 0)
+            if w == 0:
+                if not d["original"]:
+                    self.violate("C05.original_code", {"fn": q, "after": op.get("op"), "state": d})
+                    break
+                if d["count"] not in (None, 0) or d["caps"]:
+                    self.violate("C05.counters", {"fn": q, "after": op.get("op"), "state": d, "want": 0})
+                    break
+            elif d["count"] != w:
+                self.violate("C05.counters", {"fn": q, "after": op.get("op"), "state": d, "want": w})
+                break
+        exp = []
+        for pid in self.order:
+            rec = self.probes[pid]
+            hs = rec.obj._ol.handlers if rec.obj is not None else rec.overlay.handlers
+            exp.extend(id(h) for h in hs)
+        got = self.handlers_ids()
+        if sorted(exp) != sorted(got):
+            self.violate(
+                "C05.no_handlers",
+                {"after": op.get("op"), "expected_handlers": len(exp), "installed": len(got),
+                 "active": list(self.order)},
+            )
+        gp = SEAMS.get("global_probes")
+        if gp is not None:
+            exp_g = sorted(id(self.probes[p].obj) for p in self.order if self.probes[p].obj is not None)
+            got_g = sorted(id(x) for x in gp)
+            if exp_g != got_g:
+                self.violate("C05.global_set", {"after": op.get("op"), "expected": len(exp_g), "got": len(got_g)})
 
     def result(self):
         viol = [v for v in self.viol if any(v[0].startswith(j) for j in self.judge)]
